@@ -221,6 +221,7 @@ class LoopCtx:
 class Interp:
     def __init__(self, timeout_ms=30000, feas_timeout_ms=5000):
         self.summaries = {}    # 'module:qualname' -> callable(interp, args, kwargs)
+        self.native_summaries = {}   # (module, qualname) of a package function object (e.g. a decorated serialiser) -> callable(interp, f, args, kwargs)
         self.loopspecs = {}    # ('module:qualname', ordinal) -> LoopSpec
         self.records = {}      # obligation name -> ObRecord
         self.failures = []
@@ -854,6 +855,9 @@ class Interp:
         if isinstance(f, types.MethodType) and self.is_pkg_function(f.__func__):
             return self.call_function(self.closure_for_native(f.__func__), (f.__self__,) + tuple(args), kwargs)
         if self.is_pkg_function(f):
+            ns = self.native_summaries.get((f.__module__, f.__qualname__))
+            if ns is not None:
+                return ns(self, f, args, kwargs)
             return self.call_closure(self.closure_for_native(f), args, kwargs)
         if isinstance(f, type):
             if f is tuple.__class__:
@@ -909,7 +913,12 @@ class Interp:
         if isinstance(v, ast.Yield):
             if fr.yields is None:
                 raise Unsupported('yield outside generator frame')
-            fr.yields.append(self.eval(v.value, fr) if v.value is not None else None)
+            val = self.eval(v.value, fr) if v.value is not None else None
+            hook = getattr(self, 'yield_hook', None)
+            if hook is not None:
+                hook(self, val)         # ghost view of the yielded sequence (contracts over generators with symbolic trip counts)
+            else:
+                fr.yields.append(val)
             return None
         self.eval(v, fr)
         return None
@@ -1253,6 +1262,10 @@ class Interp:
             if isinstance(sig, _Return):
                 return sig
             ctx1 = LoopCtx(self, fr, k + 1, entry, itv)
+            ab = getattr(spec, 'after_body', None)
+            if ab is not None:
+                for nme, c in ab(ctx1):
+                    self.oblige(nme, c, kind='post')
             for nme, c in spec.inv(ctx1):
                 self.oblige('%s.%s.inv-preserve.%s' % (fname, tag, nme), c, kind='inv-preserve')
             raise PathEnd()
